@@ -91,9 +91,11 @@ def detect(name, props):
         assert ap.returncode == 0, "patch does not apply: " + ap.stdout
         for p in props or [m["property"]]:
             t0 = time.time()
+            evd = tempfile.mkdtemp(prefix="ev-", dir="/tmp")
             r = subprocess.run([os.path.join(VERIF, "check"), p, "--tier", os.environ.get("TIER", "quick")], cwd=VERIF,
-                               env=dict(os.environ, VERIF_REPO=d, VERIF_EVIDENCE_DIR=tempfile.mkdtemp(prefix="ev-", dir="/tmp")),
+                               env=dict(os.environ, VERIF_REPO=d, VERIF_EVIDENCE_DIR=evd),
                                stdout=subprocess.PIPE, stderr=subprocess.STDOUT, text=True)
+            shutil.rmtree(evd, ignore_errors=True)
             viol = [ln for ln in r.stdout.splitlines() if ln.startswith("VIOLATION")]
             what = [ln.strip() for ln in r.stdout.splitlines() if ln.strip().startswith("what:")]
             m.setdefault("detected_by", {})[p] = {"exit": r.returncode, "violations": len(viol), "first": what[0][:300] if what else "",
